@@ -94,6 +94,8 @@ def cases(tier):
     for n in (2, 3):
         for order in itertools.permutations(range(3), n):
             yield ('shared', order)
+    for variant in ('suite-conf', 'suite-conf-and-sub-suite', 'failing'):
+        yield ('preprocessor', variant)
 
 
 def _mk_seam(w, seam, probes):
@@ -171,6 +173,8 @@ def run(case) -> Result:
         return _contents(res, case, w, seam, mp)
     if k == 'shared':
         return _shared(res, case, w, seam, mp)
+    if k == 'preprocessor':
+        return _preprocessor(res, case, w, seam, mp)
     return _isolation(res, case, w, seam, mp)
 
 
@@ -467,6 +471,60 @@ def _shared(res, case, w, seam, mp):
                 errs.append('%s: case k%d: suite-supplied `run` got %s, the case\'s own values give %s' % (mode, i, c['args'], wantargs))
     res.nontrivial += 1
     res.outcomes[('shared', len(order))] += 1
+    res.validated += 0 if errs else 1
+    if errs:
+        res.violation(case, errs)
+    return res
+
+
+def _preprocessor(res, case, w, seam, mp):
+    """A preprocessor configured in the suite's [conf] is applied to every case listed directly in the suite - in a suite run and when the
+    case is run alone with that suite - and not to cases of sub-suites."""
+    variant = case[1]
+    res.nontrivial += 1
+
+    def pp(rec):
+        name = rec['args'][-1]
+        if variant == 'failing' and name == 'c2.case':
+            return {'exit': 3, 'err': 'pp failed\n'}
+        return {'out': '[act]\n%% mark preprocessed-%s\n' % name}
+
+    seam.script['pp'] = pp
+    seam.default = {'exit': 0}
+    suite = '[conf]\npreprocessor = pp -x\n[cases]\nc1.case\nc2.case\n'
+    if variant == 'suite-conf-and-sub-suite':
+        suite = '[suites]\nsub/sub.suite\n' + suite
+        w.write('sub/sub.suite', '[cases]\ns1.case\n')
+        w.write('sub/s1.case', '[act]\n% mark raw-s1.case\n')
+    w.write('main.suite', suite)
+    w.write('c1.case', 'this is not exactly syntax [\n')
+    w.write('c2.case', 'neither is this [\n')
+    errs = []
+    want_ident = {'c1.case': 'PASS', 'c2.case': 'PRE_PROCESS_ERROR' if variant == 'failing' else 'PASS'}
+    runs = [('suite-run', ['suite', str(w.home / 'main.suite')], None)] + \
+           [('alone-' + c, ['--suite', str(w.home / 'main.suite'), str(w.home / c)], c) for c in ('c1.case', 'c2.case')]
+    for mode, argv, single in runs:
+        seam.calls.clear()
+        o = cli.run(argv, mp=mp)
+        res.n += 1
+        pps = [c['args'] for c in seam.calls if c['name'] == 'pp']
+        marks = [c['args'][1] for c in seam.calls if c['name'] == 'mark']
+        cases_ = ['c1.case', 'c2.case'] if single is None else [single]
+        want_pp = [['pp', '-x', c] for c in cases_]
+        want_marks = (['raw-s1.case'] if (variant == 'suite-conf-and-sub-suite' and single is None) else []) + \
+                     ['preprocessed-' + c for c in cases_ if want_ident[c] == 'PASS']
+        if pps != want_pp:
+            errs.append('%s: preprocessor invocations %s, expected %s' % (mode, pps, want_pp))
+        if marks != want_marks:
+            errs.append('%s: actions %s, expected %s' % (mode, marks, want_marks))
+        if single is None:
+            lines = {l.split(': ')[0].split()[-1]: l.split(': ')[-1].split(' ')[-1] for l in o.out.split('\n') if l.startswith('case')}
+            for c in cases_:
+                if lines.get(c) != want_ident[c]:
+                    errs.append('%s: %s reported %s, alone it gives %s' % (mode, c, lines.get(c), want_ident[c]))
+        elif o.ident != want_ident[single]:
+            errs.append('%s: %s, expected %s' % (mode, o.ident, want_ident[single]))
+    res.outcomes[('preprocessor', variant)] += 1
     res.validated += 0 if errs else 1
     if errs:
         res.violation(case, errs)
